@@ -383,10 +383,21 @@ func (x *Exec) merge(states []*State) *State {
 	}
 	// held locks: keep those held in all
 	for k := range res.held {
+		if strings.HasPrefix(k, "~rel:") {
+			continue
+		}
 		for _, s := range live[1:] {
 			if s.held[k] != res.held[k] {
 				delete(res.held, k)
 				break
+			}
+		}
+	}
+	// released markers: keep those set on any path
+	for _, s := range live[1:] {
+		for k, v := range s.held {
+			if strings.HasPrefix(k, "~rel:") {
+				res.held[k] = v
 			}
 		}
 	}
